@@ -635,7 +635,17 @@ class FmtStr:
         return self._s
 
     def __getitem__(self, index: Union[int, slice]) -> "FmtStr":
-        index = normalize_slice(len(self), index)
+        if isinstance(index, int):
+            if index < 0:
+                index += len(self)
+            if not 0 <= index < len(self):
+                raise IndexError("FmtStr index out of range")
+            index = slice(index, index + 1)
+        else:
+            if index.step is not None:
+                raise NotImplementedError("You can't use steps with slicing yet")
+            start, stop, _ = index.indices(len(self))
+            index = slice(start, stop)
         counter = 0
         parts = []
         for chunk in self.chunks:
